@@ -43,7 +43,9 @@ class Entail:
     def __init__(self, hyps, timeout_ms=120000, seed=0):
         self.s = z3.SolverFor("QF_LRA")
         self.s.set("timeout", timeout_ms)
-        self.s.set("random_seed", seed % 1000)
+        # the verdict cannot depend on the seed; solving time can (a 14-month query ran > 20 min with random_seed=1, 70 s with 0):
+        # the solver seed is fixed, VERIF_SEED only selects instances / concrete validation values
+        self.s.set("random_seed", 0)
         self.s.add(hyps)
         self.queries = 0
         self.solver_s = 0.0
